@@ -441,6 +441,8 @@ type bsearch struct {
 	cont      *types.Var
 	elemField *types.Var
 	key       *ssa.Parameter
+	// idxResult: the function hands out the position it found (int, bool); a wrapper turns it into the element
+	idxResult bool
 }
 
 func (b *bsearch) hold(construct string, pos token.Pos, detail string) {
@@ -911,6 +913,9 @@ func (b *bsearch) foundReturns() (found, notFound []*ssa.Return) {
 // for the index search).
 func (b *bsearch) resultIndex(ret *ssa.Return) (ssa.Value, bool) {
 	v := retOperand(ret, 0)
+	if b.idxResult {
+		return stripValue(v), true
+	}
 	if b.role == "index" {
 		i, fld, ok := b.elem(v, true)
 		if !ok || fld == nil || fld.Name() != "DataHandle" {
@@ -1292,6 +1297,39 @@ func runLookupBsearch(c *Ctx, r *RuleRun) {
 			continue
 		}
 		b := &bsearch{p: p, f: t.f, r: r, fn: p.FnName(t.f), role: t.role, cont: cont, elemField: ef, key: key}
+		// the search proper may live in a helper on the same receiver that hands out the position (idx, ok): the
+		// wrapper must turn exactly that position into the element, and the helper is held to the template
+		if h, call := positionHelper(p, t.f, key); h != nil && len(naturalLoops(t.f)) == 0 {
+			hk := keyParam(h)
+			if hk == nil {
+				r.Undecided(p.FnName(t.f), t.role+": template", "", "the position helper has no key parameter")
+				continue
+			}
+			idx, okv := extractOf(call, 0), extractOf(call, 1)
+			wrapped := idx != nil && okv != nil
+			eachInstr(t.f, func(ins ssa.Instruction) {
+				ret, isRet := ins.(*ssa.Return)
+				if !isRet || len(ret.Results) != 2 || !wrapped {
+					return
+				}
+				switch {
+				case isConstBool(retOperand(ret, 1), true):
+					i, isIdx := b.resultIndex(ret)
+					under := boolFactIs(ret, func(v ssa.Value) bool { return v == okv }, true)
+					b.check(isIdx && i == stripValue(idx) && under, "wrapper hands out the element at the position found", instrPos(ret), "Entries[idx] under ok", "the wrapper of the position search does not return the element at the position the search found (or returns it although nothing was found)")
+				case isConstBool(retOperand(ret, 1), false):
+					under := boolFactIs(ret, func(v ssa.Value) bool { return v == okv }, false)
+					b.check(under, "wrapper answers not-found only when the search did", instrPos(ret), "not found under !ok", "the wrapper of the position search answers not-found although a position was found")
+				default:
+					wrapped = false
+				}
+			})
+			if !wrapped {
+				r.Undecided(p.FnName(t.f), t.role+": template", "", "the wrapper of the position search has a result this rule cannot read")
+				continue
+			}
+			b = &bsearch{p: p, f: h, r: r, fn: p.FnName(h), role: t.role, cont: cont, elemField: ef, key: hk, idxResult: true}
+		}
 		b.run()
 	}
 }
@@ -1448,6 +1486,10 @@ func runLookupIndexKeys(c *Ctx, r *RuleRun) {
 		}
 		obj := p.CalleeObj(cl)
 		if obj == nil || obj.Name() != "Write" {
+			// a helper that always writes the bytes it is handed into the buffer
+			if bufferWriteArg(p, build, cl) == encBytes && encBytes != nil {
+				wrote = dominatesInstr(encCall, cl)
+			}
 			return
 		}
 		for _, arg := range cl.Call.Args {
@@ -1459,7 +1501,8 @@ func runLookupIndexKeys(c *Ctx, r *RuleRun) {
 	r.Check(wrote, fn, "block bytes written in index order", p.Pos(instrPos(encCall)), "the encoding measured is the one written, in the same iteration", "the bytes written for a block are not the encoding whose length the index records (or are written outside the loop)")
 	// entries go into blocks in input order: the append into the current block takes the range element
 	appendOK := false
-	eachInstr(build, func(ins ssa.Instruction) {
+	// (the loop that cuts the entries into blocks may live in a helper of Build)
+	eachInstrOf(localFns(p, build), func(ins ssa.Instruction) {
 		st, ok := ins.(*ssa.Store)
 		if !ok {
 			return
@@ -1635,4 +1678,38 @@ func runLookupFetch(c *Ctx, r *RuleRun) {
 		r.Hold(fn, "decodes the bytes read", p.Pos(fetch.Pos()), "Decode(buffer)")
 	}
 	_ = readCall
+}
+
+// positionHelper: the one method on f's receiver type that f calls with its receiver and its key and that answers
+// (int, bool).
+func positionHelper(p *Prog, f *ssa.Function, key *ssa.Parameter) (*ssa.Function, *ssa.Call) {
+	var hs []*ssa.Function
+	var calls []*ssa.Call
+	eachInstr(f, func(ins ssa.Instruction) {
+		cl, ok := ins.(*ssa.Call)
+		if !ok {
+			return
+		}
+		h := cl.Call.StaticCallee()
+		if h == nil || h.Pkg != f.Pkg || h.Signature.Recv() == nil || f.Signature.Recv() == nil || !resultIs(h, types.Int, types.Bool) {
+			return
+		}
+		if !types.Identical(h.Signature.Recv().Type(), f.Signature.Recv().Type()) || len(cl.Call.Args) < 2 || cl.Call.Args[0] != ssa.Value(f.Params[0]) {
+			return
+		}
+		passesKey := false
+		for _, a := range cl.Call.Args[1:] {
+			if a == ssa.Value(key) {
+				passesKey = true
+			}
+		}
+		if passesKey {
+			hs = append(hs, h)
+			calls = append(calls, cl)
+		}
+	})
+	if len(hs) == 1 {
+		return hs[0], calls[0]
+	}
+	return nil, nil
 }
